@@ -28,7 +28,7 @@ def main(tier, replay=None):
                 l = l.strip()
                 if l.startswith("case: "):
                     l = l[6:]
-                if l[:2] in ("K ", "L ", "R ", "E "):
+                if l[:2] in ("K ", "L ", "R ", "E ", "W "):
                     f.write(l + "\n")
     else:
         subprocess.run([hbin, "gen", c.tier, str(c.seed), rd], check=True)
@@ -57,6 +57,8 @@ def main(tier, replay=None):
     # --- correspondence
     diffs, flaky = [], 0
     for key, cl in case_by_key.items():
+        if key.startswith("W "):
+            continue    # disturbances outside the model: judged by the monitor only
         il, ml = impl.get(key, ""), model.get(key, "")
         if cmp_part(il, cl) != cmp_part(ml, cl):
             if key.startswith("E "):
@@ -75,17 +77,34 @@ def main(tier, replay=None):
             if key.startswith("E "):
                 f.write(il.replace(" | ", " ") + "\n")
                 n_mon += 1
+            elif key.startswith("W "):
+                f.write("E w" + il[2:].replace(" | ", " ") + "\n")
+                n_mon += 1
     spec_out = c.run_sharded([driver, "<"], spec_in, os.path.join(rd, "spec.out"), argv_suffix=["spec"], shards=1)
     spec = read_keyed(spec_out)
     mon_viol = 0
     for key, il in impl.items():
-        if not key.startswith("E "):
+        if not (key.startswith("E ") or key.startswith("W ")):
             continue
         outcome = il.split(" ")[2] if len(il.split(" ")) > 2 else "missing"
         names = []
         if outcome != "done":
             names.append("hang-or-abort:" + outcome)
-        verdict = spec.get(key, key + " missing").split(" ")[2]
+        skey = key if key.startswith("E ") else "E w" + key[2:]
+        verdict = spec.get(skey, skey + " missing").split(" ")[2]
+        if key.startswith("W ") and names + [v for v in verdict.split(",") if v != "ok"]:
+            # real-clock case: a verdict counts only if it repeats
+            again = rerun(key)
+            p2 = os.path.join(rd, "respec.in")
+            with open(p2, "w") as f2:
+                f2.write("E w" + again[2:].replace(" | ", " ") + "\n")
+            out2 = subprocess.run([driver, "spec"], stdin=open(p2), stdout=subprocess.PIPE).stdout.decode().strip()
+            v2 = out2.split(" ")[2] if len(out2.split(" ")) > 2 else "missing"
+            o2 = again.split(" ")[2] if len(again.split(" ")) > 2 else "missing"
+            if v2 == "ok" and o2 == "done":
+                flaky += 1
+                continue
+            il = again if again else il
         if verdict != "ok":
             names += verdict.split(",")
         for name in names:
@@ -125,6 +144,8 @@ def main(tier, replay=None):
             nt.add(cl.split(" ", 2)[2])
         elif k == "E" and ("timeout" in ml or "x" in cl or "u" in cl or "h" in cl):
             nt.add(cl.split(" ", 2)[2])
+        elif k == "W":
+            nt.add(cl.split(" ", 2)[2])
         elif k in ("K", "L"):
             nt.add(cl.split(" ", 2)[2])
     samples, seen = [], {}
@@ -138,6 +159,8 @@ def main(tier, replay=None):
         "distinct_nontrivial": len(nt),
         "rule": "K = back-off for one (base, counter) over all 256 jitter values; L = retransmission_timeout_ms; "
                 "R = ReliableMessage pre_send/post_recv op sequence (state after every op compared); "
+                "W = the same with disturbances outside the model (an unrelated session evicted during a back-off; a slow link on which "
+                "another exchange holds the single TX buffer while the acknowledgement arrives), judged by the monitor only; "
                 "E = two real Matter nodes over a scripted in-memory network (per-datagram deliver/drop/duplicate/hold), "
                 "send results, delivered messages and acknowledgement count compared with the model; "
                 "non-trivial = distinct case whose model answer shows a timeout/duplicate/piggy-backed ack (R), or whose script loses, duplicates or holds a datagram (E); every K/L",
